@@ -118,7 +118,7 @@ func reference(archive []byte, archName string, prov []byte, noProv bool, ring [
 		return verdict{Reason: "no-block"}
 	}
 	v := verdict{Text: canonText(blk.Bytes)}
-	el, err := openpgp.ReadKeyRing(bytes.NewReader(ring))
+	el, err := parsedRing(ring)
 	if err != nil {
 		v.Reason = "ring-unreadable"
 		return v
@@ -165,4 +165,20 @@ func reference(archive []byte, archName string, prov []byte, noProv bool, ring [
 		}
 	}
 	return v
+}
+
+// parsedRing parses a keyring once per distinct content (the reference's own
+// memo, keyed by the bytes, not by any path).
+var ringMemo = map[string]openpgp.EntityList{}
+
+func parsedRing(ring []byte) (openpgp.EntityList, error) {
+	if el, ok := ringMemo[string(ring)]; ok {
+		return el, nil
+	}
+	el, err := openpgp.ReadKeyRing(bytes.NewReader(ring))
+	if err != nil {
+		return nil, err
+	}
+	ringMemo[string(ring)] = el
+	return el, nil
 }
